@@ -38,7 +38,7 @@ CorePool == {
     "pat_mid_caret", "pat_nongreedy", "pat_straddle", "pat_two",
     "ty_list_int", "ty_list_enum", "ty_list_list_int", "ty_opt_list_item", "ty_opt_list_str", "ty_self_list",
     "st_abstract_childless", "st_enum_empty", "st_impl_class", "st_impl_method", "st_impl_fn", "st_const_set_str",
-    "st_diamond", "st_no_props", "st_wmt_true",
+    "st_diamond", "st_diamond_cprim", "st_no_props", "st_wmt_true",
     "ex_all_items", "ex_enum_eq", "ex_is_none",
     "nm_class_case_collision", "nm_prop_case_collision", "nm_literal_collision"}
 \* quick ("core"): pairs inside the core pool; thorough ("all"): pairs with at least one member in the core pool
